@@ -1183,12 +1183,15 @@ def make_tasks(tier: str, seed: int) -> List[Any]:
                ["(_ re.loop 1 2)", a_], ["re.comp", a_], ["re.inter", a_, ab_],
                ["re.++", ["re.range", S("a"), S("b")], ["re.all"]]]
     det2 = [[u, b] for u in UNARY_RE for b in bodies2]
-    for r in det2:
-        tasks.append(("regex", (r, subjects_for(r, None, 14 if thorough else 9)), all_ch, "ii-regex"))
+    # loops whose own pattern is broken, placed after another element
+    det2 += [["re.++", pre, [u, ["str.to_re", S(e)]]] for u in UNARY_RE if "loop" in u
+             for pre in (a_, ["re.range", S("a"), S("b")]) for e in ("", "ab")]
     for k, r in enumerate(det):
         subs = subjects_for(r, None, 14 if thorough else 8)
         chans = all_ch if (k < len(leaves) * (1 + len(UNARY_RE)) or k % (2 if thorough else 3) == 0) else ("is_valid",)
         tasks.append(("regex", (r, subs), chans, "ii-regex"))
+    for r in det2:
+        tasks.append(("regex", (r, subjects_for(r, None, 14 if thorough else 9)), all_ch, "ii-regex"))
     rnd: List[Any] = []
     for _ in range(6000 if thorough else 220):
         rnd.append(gen_regex(rng, 2, leaves))
